@@ -186,6 +186,41 @@ let op_api st a =
   let fast = ar_api_vars_ok to_svc fv && (if to_svc then ar_target_services (Some fv) f <> None else ar_target_hosts (Some fv) f <> None) in
   emit (Printf.sprintf "api fast=%d plain=%s wrapped=%s" (if fast then 1 else 0) (keys_str (ar_api_fast g navv inv to_svc fv f)) (keys_str (ar_api_plain g navv inv to_svc fv (ar_wrap f))))
 
+(* ---- ar_order: every file order of the rules (lexicographic, as std::next_permutation enumerates them) ---- *)
+let rec ar_perms_of (l : int list) : int list list =
+  match l with
+  | [] -> [ [] ]
+  | _ -> List.concat_map (fun x -> List.map (fun p -> x :: p) (ar_perms_of (List.filter (fun y -> y <> x) l))) l
+let ar_order_plan n : int list list =
+  let id = List.init n (fun i -> i) in
+  if n <= 4 then ar_perms_of id
+  else
+    let rot r = List.init n (fun i -> (i + r) mod n) in
+    id :: List.rev id :: List.init (n - 1) (fun r -> rot (r + 1))
+let ar_order_params j = (* j >= 1 *) ((if j mod 2 = 1 then 1 else 4), j mod 4 >= 2)
+let ar_order_head w p thr rev =
+  Printf.sprintf "o-load w=%d perm=%s thr=%d rev=%d" w
+    (if p = [] then "-" else String.concat "-" (List.map string_of_int p)) thr (if rev then 1 else 0)
+let rev_inventory st : ar_host list =
+  List.rev_map (fun h -> { h with ar_h_svcs = List.rev h.ar_h_svcs }) (inventory st)
+
+let op_order st =
+  let n = List.length st.rules in
+  let g = genv st in
+  let check = try Sys.getenv "VERIF_AR_ORDER_MODEL" <> "0" with Not_found -> true in
+  List.iteri (fun w (rules, run) ->
+      let base = if broken st then None else run g (inventory st) rules in
+      List.iteri (fun j0 p ->
+          let (thr, rev) = ar_order_params (j0 + 1) in
+          (* the theorems say "same"; the permuted load is computed all the same (set VERIF_AR_ORDER_MODEL=0 to skip) *)
+          let same =
+            (not check) || broken st ||
+            (let r = run g (if rev then rev_inventory st else inventory st) (List.map (List.nth rules) p) in
+             int_of_z (ar_order_oracle base r) = 0) in
+          emit (ar_order_head w p thr rev ^ (if same then " same" else " differs(model)")))
+        (ar_order_plan n))
+    [ (st.rules, ar_apply_fast); (st.wrules, ar_apply) ]
+
 (* ---- oracle: re-reads the script, parses the implementation's observation lines ---- *)
 let parse_obj l =
   let t = toks_of l in
@@ -212,6 +247,7 @@ let oracle_c16 script trace =
   let st = fresh () in
   let tr = ref trace in
   let err = ref None in
+  let last_plain = ref None and last_wrapped = ref None in
   let fail m = if !err = None then err := Some m in
   let next () = match !tr with [] -> None | l :: r -> tr := r; Some l in
   (* read one "<tag>-rule.. / <tag>-load .. / <tag>-obj .." block *)
@@ -250,6 +286,7 @@ let oracle_c16 script trace =
           let n = List.length st.rules in
           let (pidx, plain) = read_block "p" n in
           let (_, wrapped) = read_block "w" n in
+          last_plain := plain; last_wrapped := wrapped;
           if !err = None then begin
             if broken st then (if plain <> None || wrapped <> None then fail (Printf.sprintf "step=%d load-with-missing-host-accepted" li)) else
             let inv = inventory st and g = genv st in
@@ -266,6 +303,40 @@ let oracle_c16 script trace =
             | 4 -> fail (Printf.sprintf "step=%d unindexed-load-differs-from-its-model%s" li why)
             | _ -> fail (Printf.sprintf "step=%d recorded-divergence%s" li why)
           end
+        | Some ("ar_order", _) ->
+          (* 2 x (number of file orders) lines "o-load ..": same | differs fail | differs ok n=K + K object lines *)
+          let n = List.length st.rules in
+          List.iteri (fun w base ->
+              List.iter (fun _ ->
+                  if !err = None then
+                    match next () with
+                    | Some l when starts l "o-load" ->
+                      let t = toks_of l in
+                      if List.mem "same" (String.split_on_char ' ' l) then ()
+                      else begin
+                        let other =
+                          if List.mem "fail" (String.split_on_char ' ' l) then None
+                          else begin
+                            let k = match tok_val t "n" with Some v -> int_of_string v | None -> 0 in
+                            let objs = ref [] in
+                            for _ = 1 to k do
+                              match next () with
+                              | Some l when starts l "o-obj" -> objs := parse_obj l :: !objs
+                              | Some l -> fail ("crash-or-garbled " ^ l)
+                              | None -> fail "crash missing-observation"
+                            done;
+                            Some (List.rev !objs)
+                          end in
+                        if !err = None && int_of_z (ar_order_oracle base other) <> 0 then
+                          fail (Printf.sprintf "step=%d created-set-depends-on-order w=%d perm=%s thr=%s rev=%s" li w
+                                  (match tok_val t "perm" with Some v -> v | None -> "?")
+                                  (match tok_val t "thr" with Some v -> v | None -> "?")
+                                  (match tok_val t "rev" with Some v -> v | None -> "?"))
+                      end
+                    | Some l -> fail ("crash-or-garbled " ^ l)
+                    | None -> fail "crash missing-observation")
+                (ar_order_plan n))
+            [ !last_plain; !last_wrapped ]
         | Some ("ar_api", a) ->
           (match next () with
            | Some l when starts l "api " ->
@@ -303,6 +374,7 @@ let () =
       print_load "p" st.rules (ar_apply_fast g inv st.rules);
       (* a wrapped rule is never indexed; its rules print R by construction of ar_rule_index *)
       print_load "w" st.wrules (ar_apply g inv st.wrules) end);
+  register_op "ar_order" (fun _ -> op_order !cur);
   register_op "ar_api" (fun a -> op_api !cur a);
   register_case_end (fun () -> cur := fresh ());
   register_oracle "C16" oracle_c16
